@@ -46,6 +46,7 @@ type inputGen struct {
 	keyRaw []byte
 	ts     uint64
 	trIdx  int
+	hbs    int
 }
 
 // session returns the bytes of one session and the uids of its valid frames.
@@ -81,10 +82,18 @@ func (g *inputGen) session(sess, nItems int, v1ok bool) ([]byte, []uint64) {
 			out = append(out, j...)
 		case k == 3 && g.keyRaw != nil: // unsigned frame on a signed link
 			out = append(out, uidFrame(uid, byte(i), 9, false, nil, 0)...)
+		case k == 4 && g.keyRaw == nil: // an ArduPilot heartbeat from a new sender: triggers stream requests and their event
+			g.hbs++
+			out = append(out, hbFrame(byte(1+g.hbs%250), byte(1+g.hbs/250%250), 3, 0)...)
 		default:
 			out = append(out, w...)
 			uids = append(uids, uid)
 		}
+	}
+	if g.keyRaw == nil && g.r.Chance(2, 3) {
+		// the last thing the link delivers before its session ends is the first heartbeat of a new ArduPilot sender
+		g.hbs++
+		out = append(out, hbFrame(byte(1+g.hbs%250), byte(1+g.hbs/250%250), 3, 0)...)
 	}
 	return out, uids
 }
@@ -335,9 +344,10 @@ func c10custom(rep *vh.Report, seed uint64, idx int) {
 			ended := si < len(l.expect)-1
 			switch {
 			case closeFirst:
-				pre := beforeClose[chans[si].Ch]
-				if cls := classifySeq(got, want); !isPrefix(got[:pre], want) || (cls != "lost" && !eqU64(got, want)) {
-					rep.Violation("what="+cls+" ep=custom",
+				// a node that is closing stops delivering: what arrived is a gap-free prefix of what was fed
+				_ = beforeClose
+				if !isPrefix(got, want) {
+					rep.Violation("what="+classifySeq(got, want)+" ep=custom",
 						"frames delivered before the node was closed are not a prefix of what the channel was fed (loss, duplicate, reorder or wrong channel)",
 						map[string]interface{}{"link": li, "session": si, "got": len(got), "want": len(want), "key": withKey})
 				}
